@@ -520,6 +520,20 @@ func runEdits(o *opts) {
 		// the human rendering of the same state
 		txt := p.dud("", "status")
 		t.Info["human"] = lastLines(txt.Stdout, 6)
+		t.Text = parseHumanStatus(txt.Stdout)
+		t.Specs = append(t.Specs, want(26)...)
+		// an empty directory is rendered "1x empty directory" whether or not it is up-to-date
+		if n := t.Pre.Root; n != nil {
+			cur := n
+			for _, comp := range splitPath(c.artPath) {
+				if cur != nil {
+					cur = cur.get(comp)
+				}
+			}
+			if (cur != nil && cur.Kind == "d" && len(cur.Ents) == 0) || ek == "add-dir" {
+				t.Info["empty_directory_without_manifest"] = true
+			}
+		}
 		if ek != "none" {
 			distinct[fmt.Sprintf("%s|%s", ek, t.Pre.Root.coq())] = true
 		}
